@@ -258,7 +258,10 @@ def task_group(pr, repo):
 
 
 def run(pr, repo):
-    tasks = [(task_check_distance, ()), (task_cell_lemma, ()), (task_offsets, ()), (task_coverage, ()), (task_group, ())]
+    from . import C14
+    # 'a bridged cysteine is not titrated' also under a titrate-only list that names it
+    tasks = [(task_check_distance, ()), (task_cell_lemma, ()), (task_offsets, ()), (task_coverage, ()), (task_group, ()),
+             (C14.task_init_group, ())]
     pairs = [('S', 'S', False), ('H', 'C', True)]
     if pr.tier == 'thorough':
         pairs += [('C', 'C', False), ('S', 'S', True), ('H', 'H', False), ('F', 'F', False), ('C', 'S', False), ('N', 'H', True)]
